@@ -149,8 +149,9 @@ type c01Runner struct {
 }
 
 func c01Run(c *core.Ctx) {
-	// the cheap family multi-table goes first: a budget that runs out cuts the deep enumerations below, and says so
+	// the cheap families multi-table and commit-swap-failure go first: a budget that runs out cuts the deep enumerations below, and says so
 	c01MultiTableRun(c)
+	c01SwapFailRun(c)
 	if c01FamilyOff("base") {
 		return
 	}
